@@ -69,6 +69,59 @@ def _pure(e, known):
     return False
 
 
+READ_METHODS = {"get", "keys", "values", "items", "index", "count", "copy", "__contains__", "__getitem__"}
+READ_CALLS = {"len", "sorted", "tuple", "list", "set", "dict", "frozenset", "min", "max", "sum", "any", "all", "enumerate", "zip", "iter", "reversed", "isinstance", "map", "filter", "str", "repr"}
+
+
+def _is_mutable_value(e):
+    return isinstance(e, (ast.Dict, ast.List, ast.Set, ast.DictComp, ast.ListComp, ast.SetComp)) or \
+        (isinstance(e, ast.Call) and (_dotted(e.func) or "").split(".")[-1] in ("dict", "list", "set", "OrderedDict", "defaultdict", "deque", "Counter", "bytearray",
+                                                                                  "WeakKeyDictionary", "WeakValueDictionary"))
+
+
+def escaping_uses(tree):
+    """names (module-level style `X`) and attribute names (class-level style `obj.X`) that are used somewhere other than in a read position:
+    bound to another name, passed to a call, returned, stored in a container ...  A mutable container used like that may be written through
+    the alias, so it is not a constant (it is state)."""
+    esc_names, esc_attrs = set(), set()
+    parent = {}
+    for n in ast.walk(tree):
+        for c in ast.iter_child_nodes(n):
+            parent[id(c)] = n
+
+    def read_position(n):
+        p = parent.get(id(n))
+        if p is None:
+            return True
+        if isinstance(p, ast.Subscript) and p.value is n:
+            return isinstance(p.ctx, ast.Load)
+        if isinstance(p, ast.Compare) and n in p.comparators and all(isinstance(o, (ast.In, ast.NotIn)) for o in p.ops):
+            return True
+        if isinstance(p, (ast.For, ast.comprehension)) and p.iter is n:
+            return True
+        if isinstance(p, ast.Attribute) and p.value is n:
+            return p.attr in READ_METHODS and isinstance(parent.get(id(p)), ast.Call) and parent[id(p)].func is p
+        if isinstance(p, ast.Call) and n in p.args and (_dotted(p.func) or "") in READ_CALLS:
+            return True
+        if isinstance(p, ast.keyword) and p.arg is None:
+            return True           # **X spread copies
+        if isinstance(p, ast.Starred):
+            return True
+        if isinstance(p, ast.Expr):
+            return True
+        if isinstance(p, ast.Assign) and n in p.targets:
+            return True           # the binding itself
+        if isinstance(p, ast.AnnAssign) and p.target is n:
+            return True
+        return False
+    for n in ast.walk(tree):
+        if isinstance(n, ast.Name) and isinstance(n.ctx, ast.Load) and not read_position(n):
+            esc_names.add(n.id)
+        elif isinstance(n, ast.Attribute) and isinstance(n.ctx, ast.Load) and not read_position(n):
+            esc_attrs.add(n.attr)
+    return esc_names, esc_attrs
+
+
 def _function_locals(fn):
     """names bound inside a def / lambda (parameters, stores, imports, nested defs), nested scopes included (conservative)"""
     out = set()
@@ -123,9 +176,12 @@ def module_constants(tree, pinned_globals):
         elif isinstance(n, ast.AugAssign) and isinstance(n.target, ast.Name):
             bad.add(n.target.id)
     out = {}
+    esc_names, _ = escaping_uses(tree)
     for name, val in cand.items():
         if name in pinned_globals or name in bad or count.get(name, 0) != 1 or name.startswith("__"):
             continue
+        if _is_mutable_value(val) and name in esc_names:
+            continue                                   # aliased / passed on: may be written through the alias - state, not a constant
         if _pure(val, out):
             out[name] = val
     return out
@@ -148,7 +204,12 @@ def class_constants(tree, pinned_class_attrs):
     """{class name: {attr: value}} for class-level names that are new, bound once to a pure expression and never assigned elsewhere"""
     out = {}
     stored = set()
+    _, esc_attrs = escaping_uses(tree)
     for n in ast.walk(tree):
+        if isinstance(n, (ast.Subscript,)) and isinstance(n.ctx, (ast.Store, ast.Del)) and isinstance(n.value, ast.Attribute):
+            stored.add(n.value.attr)                       # obj.X[k] = v writes the container X
+        elif isinstance(n, ast.Call) and isinstance(n.func, ast.Attribute) and n.func.attr in MUTATORS and isinstance(n.func.value, ast.Attribute):
+            stored.add(n.func.value.attr)
         if isinstance(n, ast.Attribute) and isinstance(n.ctx, (ast.Store, ast.Del)):
             stored.add(n.attr)
         elif isinstance(n, ast.Call) and isinstance(n.func, ast.Name) and n.func.id in ("setattr", "delattr") and len(n.args) >= 2 and isinstance(n.args[1], ast.Constant):
@@ -170,6 +231,8 @@ def class_constants(tree, pinned_class_attrs):
         for name, val in cand.items():
             if name in pinned_class_attrs or name in stored or name in methods or count.get(name) != 1 or name.startswith("__"):
                 continue
+            if _is_mutable_value(val) and name in esc_attrs:
+                continue                                   # aliased / passed on: may be written through the alias - state, not a constant
             if isinstance(val, ast.Name) and val.id in methods:
                 continue                                   # alias of a method (__radd__ = __add__)
             if _pure(val, {}) and not any(isinstance(x, ast.Name) and x.id in cand for x in ast.walk(val)):
